@@ -918,3 +918,8 @@ P.theorems = P.theorems + [
     ("TracklibVerif.Tie.C20", "TV.Tie.C20.tie_projection_droite", "the translation of the CURRENT source of geometry.projection_droite equals the model's projectionDroite on all arguments, exceptions included"),
     ("TracklibVerif.Tie.C20", "TV.Tie.C20.tie_proj_segment", "the translation of the CURRENT source of geometry.proj_segment equals the model's projSegment on all arguments, exceptions included"),
 ]
+P.theorems = P.theorems + [
+    ("TracklibVerif.Tie.C20", "TV.Tie.C20.tie_proj_polyligne", "the translation of the CURRENT source of geometry.proj_polyligne (for loop, sentinel 1e400 = inf, continue, possibly-unbound result) equals the model's projPolyligneXY (np=false, eps=1e-16) on all arguments whose kept distances are < inf, exceptions included (IndexError, ZeroDivisionError, UnboundLocalError)"),
+    ("TracklibVerif.Tie.C20", "TV.Tie.C20.tie_proj_polyligne_pairs", "the translated proj_polyligne on the abscissas/ordinates of a vertex list equals the kernel model projPolyligne on the vertices (same sentinel hypothesis), exceptions included"),
+    ("TracklibVerif.Tie.C20", "TV.Tie.C20.proj_polyligne_sentinel_deviation", "the sentinel hypothesis cannot be dropped: on one kept segment whose distance is not < inf the code raises UnboundLocalError while the model returns the segment"),
+]
